@@ -16,6 +16,12 @@ pub enum Style {
 pub struct Section {
     pub objects: BTreeMap<ObjectId, Object>,
     pub trailer: Dictionary,
+    /// Some(k): storage of eligible objects is fixed (0 plain, 1 one object stream, 2 two object
+    /// streams) instead of being a choice point
+    pub objstm: Option<usize>,
+    /// object numbers stored in an object stream of this revision but deliberately NOT listed in
+    /// its cross-reference section (malformed-but-loadable files for C08)
+    pub omit_xref: Vec<u32>,
 }
 
 #[derive(Debug, Clone)]
@@ -24,6 +30,10 @@ pub struct FileSpec {
     pub mark: Vec<u8>,
     pub style: Style,
     pub sections: Vec<Section>,
+    /// first object number used for helper objects (containers, xref streams, length objects);
+    /// None = one above the largest number of all sections. A fixed base makes the bytes of a
+    /// history a prefix of the bytes of every extension of that history.
+    pub helper_base: Option<u32>,
 }
 
 #[derive(Debug, Clone, Default)]
@@ -428,13 +438,14 @@ pub fn write(spec: &FileSpec, ch: &mut Chooser) -> (Vec<u8>, Layout) {
     w.put(b"%");
     w.put(&spec.mark);
     w.eol("eol.mark");
-    let mut next_id: u32 = spec
-        .sections
-        .iter()
-        .flat_map(|s| s.objects.keys().map(|k| k.0))
-        .max()
-        .unwrap_or(0)
-        + 1;
+    let mut next_id: u32 = spec.helper_base.unwrap_or(
+        spec.sections
+            .iter()
+            .flat_map(|s| s.objects.keys().map(|k| k.0))
+            .max()
+            .unwrap_or(0)
+            + 1,
+    );
     let mut prev_xref: Option<usize> = None;
     let mut known_max: u32 = 0;
     for (si, sec) in spec.sections.iter().enumerate() {
@@ -451,7 +462,13 @@ pub fn write(spec: &FileSpec, ch: &mut Chooser) -> (Vec<u8>, Layout) {
             .filter(|(id, o)| id.1 == 0 && !matches!(o, Object::Stream(_)))
             .map(|(id, _)| *id)
             .collect();
-        let part = if spec.style == Style::Stream { w.ch.choose("os.partition", 3) } else { 0 };
+        let part = if spec.style != Style::Stream {
+            0
+        } else if let Some(k) = sec.objstm {
+            k
+        } else {
+            w.ch.choose("os.partition", 3)
+        };
         let groups: Vec<Vec<ObjectId>> = match part {
             1 if !eligible.is_empty() => vec![eligible.clone()],
             2 if eligible.len() >= 2 => {
@@ -608,6 +625,9 @@ pub fn write(spec: &FileSpec, ch: &mut Chooser) -> (Vec<u8>, Layout) {
             w.put(&data);
             w.put(b"\nendstream\nendobj\n");
             for (i, (num, _)) in members.iter().enumerate() {
+                if sec.omit_xref.contains(num) {
+                    continue;
+                }
                 entries.insert(*num, XEntry::Compressed { container: cid, index: i });
                 compressed_map.insert(*num, cid);
             }
@@ -625,7 +645,9 @@ pub fn write(spec: &FileSpec, ch: &mut Chooser) -> (Vec<u8>, Layout) {
                 w.eol("eol.xref");
                 let form = w.ch.choose("xref.sections", 4);
                 let mut nums: Vec<u32> = entries.keys().cloned().collect();
-                let with_zero = base || w.ch.choose("xref.update_zero", 2) == 1;
+                // an update section may or may not repeat the head of the free list; a section
+                // needs at least one subsection, so an empty update always writes it
+                let with_zero = base || w.ch.choose("xref.update_zero", 2) == 1 || nums.is_empty();
                 if with_zero {
                     nums.insert(0, 0);
                 }
@@ -689,7 +711,7 @@ pub fn write(spec: &FileSpec, ch: &mut Chooser) -> (Vec<u8>, Layout) {
                 next_id += 1;
                 lay.structural.insert(xid);
                 entries.insert(xid, XEntry::InUse { offset: xref_at, gen: 0 });
-                known_max = known_max.max(xid);
+                known_max = known_max.max(xid).max(sec_max);
                 let size = known_max + 1;
                 let any_compressed = entries.values().any(|e| matches!(e, XEntry::Compressed { .. }));
                 let max_off = xref_at as u64;
